@@ -23,14 +23,15 @@ ASSUMPTIONS = ["cycles in the module graph are not generated",
                "what zero_grad does to frozen parameters is not specified and not asserted"]
 
 NAMES = ["a", "b", "c", "w"]
+IDX = st.sampled_from(list(range(31)))
 
 
 @st.composite
 def histories(draw):
     steps = []
-    for _ in range(draw(st.integers(3, 22))):
+    for _ in range(draw(st.sampled_from([3, 6, 10, 14, 18, 22, 30]))):
         k = draw(st.sampled_from(["new_node", "new_node", "new_linear", "new_seq", "new_param", "new_param", "set", "set",
-                                  "set", "set", "register", "mode", "mode", "grads"]))
+                                  "set", "set", "set", "register", "mode", "mode", "mode", "grads"]))
         s = {"k": k}
         if k == "new_linear":
             s.update(i=draw(st.integers(1, 3)), o=draw(st.integers(1, 3)), bias=draw(st.booleans()))
@@ -39,15 +40,15 @@ def histories(draw):
         elif k == "new_param":
             s.update(shape=draw(st.sampled_from([[], [2], [2, 3], [1]])), rg=draw(st.booleans()))
         elif k == "set":
-            s.update(parent=draw(st.integers(0, 30)), name=draw(st.sampled_from(NAMES)),
-                     kind=draw(st.sampled_from(["module", "module", "param", "param", "none", "plain"])),
-                     v=draw(st.integers(0, 30)))
+            s.update(parent=draw(IDX), name=draw(st.sampled_from(NAMES)),
+                     kind=draw(st.sampled_from(["module", "module", "module", "param", "param", "none", "plain"])),
+                     v=draw(IDX))
         elif k == "register":
             s.update(parent=draw(st.integers(0, 30)), name=draw(st.sampled_from(NAMES)),
                      kind=draw(st.sampled_from(["module", "param"])), v=draw(st.integers(0, 30)))
         elif k == "mode":
-            s.update(node=draw(st.integers(0, 30)),
-                     call=draw(st.sampled_from(["train", "eval", "eval", "freeze", "unfreeze", "zero_grad"])))
+            s.update(node=draw(IDX),
+                     call=draw(st.sampled_from(["train", "eval", "eval", "freeze", "unfreeze", "zero_grad", "zero_grad"])))
         steps.append(s)
     return {"steps": steps}
 
@@ -322,5 +323,5 @@ def check_seq(c, rec):
 
 
 def subchecks():
-    return [SubCheck("histories", check_history, histories, quick=300, thorough=4000, shards_quick=6, shards_thorough=16),
+    return [SubCheck("histories", check_history, histories, quick=400, thorough=4000, shards_quick=8, shards_thorough=16),
             SubCheck("sequential", check_seq, seq_cases, quick=300, thorough=3000)]
